@@ -2,9 +2,9 @@
 package c14
 
 import (
-	"regexp"
 	"encoding/json"
 	"fmt"
+	"regexp"
 	"sort"
 	"strings"
 
@@ -28,15 +28,15 @@ func init() {
 }
 
 type caseRec struct {
-	Kind   string            `json:"kind"`
-	Name   string            `json:"name"`
-	Mods   map[string]string `json:"mods"`
-	Mods2  map[string]string `json:"mods2,omitempty"`
-	Feats  []string          `json:"features"`
-	Expect string            `json:"expect"`           // ok | error
-	Fields map[string]string `json:"fields,omitempty"` // path|field -> expected value
-	Present []string         `json:"present,omitempty"`
-	Absent  []string         `json:"absent,omitempty"`
+	Kind    string            `json:"kind"`
+	Name    string            `json:"name"`
+	Mods    map[string]string `json:"mods"`
+	Mods2   map[string]string `json:"mods2,omitempty"`
+	Feats   []string          `json:"features"`
+	Expect  string            `json:"expect"`           // ok | error
+	Fields  map[string]string `json:"fields,omitempty"` // path|field -> expected value
+	Present []string          `json:"present,omitempty"`
+	Absent  []string          `json:"absent,omitempty"`
 }
 
 func dumpMap(d string) map[string]map[string]string {
@@ -83,6 +83,8 @@ func splitFields(s string) []string {
 	}
 	return out
 }
+
+var reFeatureDecl = regexp.MustCompile(`feature ([A-Za-z0-9_.-]+) \{`)
 
 func check(r caseRec) (vs []engine.Violation, outcome string) {
 	mk := func(key, detail string) {
@@ -131,6 +133,29 @@ func check(r caseRec) (vs []engine.Violation, outcome string) {
 			mk(r.Kind+":node-present-that-should-be-absent:"+classOf(r), p+" should be absent with features "+fmt.Sprint(r.Feats))
 		}
 	}
+	if r.Kind == "feature" {
+		// the same enabled set supplied through composed checkers (the last checker that knows a
+		// feature decides) gives the same schema
+		var universe []string
+		for m, text := range r.Mods {
+			owner := m
+			if strings.HasPrefix(text, "submodule") {
+				owner = "a"
+			}
+			for _, f := range reFeatureDecl.FindAllStringSubmatch(text, -1) {
+				universe = append(universe, owner+":"+f[1])
+			}
+		}
+		sort.Strings(universe)
+		for _, supply := range []string{"enable-all-then-disable", "disable-all-then-enable", "with-nil-members", "enable-disable-enable"} {
+			rs := gen.Compile(r.Mods, gen.Options{Features: feats, FeatureSupply: supply, FeatureUniverse: universe})
+			if !rs.OK() {
+				mk("feature:supply-changes-verdict:"+supply, fmt.Sprintf("features %v: %v %v", feats, rs.Err, rs.Panic))
+			} else if ds := gen.DumpString(rs.MS, gen.DumpOpts{}); ds != d {
+				mk("feature:supply-changes-schema:"+supply, fmt.Sprintf("features %v of %v: ", feats, universe)+gen.FirstDiff(d, ds))
+			}
+		}
+	}
 	if r.Mods2 != nil {
 		res2 := gen.Compile(r.Mods2, gen.Options{Features: feats})
 		if !res2.OK() {
@@ -175,9 +200,9 @@ func stmt(kw, v string) string {
 }
 
 type skeleton struct {
-	name  string
-	text  func(p [4]string, kw string) string
-	paths [4]string
+	name   string
+	text   func(p [4]string, kw string) string
+	paths  [4]string
 	parent [4]int
 }
 
@@ -305,15 +330,15 @@ func statusCases() []caseRec {
 				exp = "error"
 			}
 			refs := map[string]string{
-				"typedef":  fmt.Sprintf("typedef t { type string; status %s; } leaf l { type t; status %s; }", s2, s1),
-				"grouping": fmt.Sprintf("grouping g { status %s; leaf gl { type string; } } container c { status %s; uses g; }", s2, s1),
-				"feature":  fmt.Sprintf("feature f { status %s; } leaf l { if-feature f; type string; status %s; }", s2, s1),
-				"identity": fmt.Sprintf("identity b { status %s; } identity d { base b; status %s; }", s2, s1),
+				"typedef":             fmt.Sprintf("typedef t { type string; status %s; } leaf l { type t; status %s; }", s2, s1),
+				"grouping":            fmt.Sprintf("grouping g { status %s; leaf gl { type string; } } container c { status %s; uses g; }", s2, s1),
+				"feature":             fmt.Sprintf("feature f { status %s; } leaf l { if-feature f; type string; status %s; }", s2, s1),
+				"identity":            fmt.Sprintf("identity b { status %s; } identity d { base b; status %s; }", s2, s1),
 				"refine-target":       fmt.Sprintf("grouping g { leaf a { type string; status %s; } } container c { uses g { status %s; refine a { description \"x\"; } } }", s2, s1),
 				"refine-target-deep":  fmt.Sprintf("grouping g { container gc { leaf a { type string; status %s; } } } container c { uses g { status %s; refine gc/a { description \"x\"; } } }", s2, s1),
 				"refine-target-mid":   fmt.Sprintf("grouping g { container gc { status %s; leaf a { type string; } } } container c { uses g { status %s; refine gc/a { description \"x\"; } } }", s2, s1),
 				"uses-augment-target": fmt.Sprintf("grouping g { container gc { status %s; leaf a { type string; } } } container c { uses g { status %s; augment gc { leaf extra { type string; } } } }", s2, s1),
-				"typedef-chain": fmt.Sprintf("typedef t0 { type string; status %s; } typedef t1 { type t0; status %s; } leaf l { type t1; status %s; }", s2, s1, s1),
+				"typedef-chain":       fmt.Sprintf("typedef t0 { type string; status %s; } typedef t1 { type t0; status %s; } leaf l { type t1; status %s; }", s2, s1, s1),
 			}
 			var names []string
 			for k := range refs {
@@ -700,10 +725,10 @@ func sameNameFeatureCases() []caseRec {
 	var out []caseRec
 	b := "module b { namespace \"urn:b\"; prefix b; feature x; grouping g { leaf gated { type string; if-feature x; } leaf plain { type string; } container gc { if-feature x; leaf in { type string; } } } }"
 	sites := map[string]string{
-		"on-uses":      "container top { uses b:g { if-feature x; } }",
-		"on-augment":   "container top { leaf base { type string; } } augment /a:top { if-feature x; uses b:g; }",
-		"on-container": "container top { if-feature x; uses b:g; }",
-		"none":         "container top { uses b:g; }",
+		"on-uses":                   "container top { uses b:g { if-feature x; } }",
+		"on-augment":                "container top { leaf base { type string; } } augment /a:top { if-feature x; uses b:g; }",
+		"on-container":              "container top { if-feature x; uses b:g; }",
+		"none":                      "container top { uses b:g; }",
 		"on-uses-of-local-grouping": "grouping lg { uses b:g; } container top { uses lg { if-feature x; } }",
 	}
 	var siteNames []string
